@@ -210,3 +210,13 @@ func (P *Program) typeOfTag(t uint64) types.Type {
 	}
 	return P.tagType[t]
 }
+
+func (P *Program) lookupIfaceMethodResult(nt *types.Named, name string) types.Type {
+	it := nt.Underlying().(*types.Interface)
+	for i := 0; i < it.NumMethods(); i++ {
+		if it.Method(i).Name() == name {
+			return it.Method(i).Type().(*types.Signature).Results().At(0).Type()
+		}
+	}
+	return nil
+}
